@@ -344,6 +344,18 @@ def check_location(ctx, repo):
                   msg='readspec looks the MJD up with latest_mjd(**kwargs), which honours topdir=, but builds the file names with `%s`, which does not: with '
                       'topdir= the spectra are read from the tree named by the environment (rows from another reduction, or FileNotFoundError)' % src(c)[:70],
                   construct='spec_path without topdir: ' + src(c)[:60])
+    # the default MJD is looked up in the same tree: latest_mjd() hands every location keyword (path, topdir, run2d) on to spec_path()
+    h = repo.func(SPEC1D, 'latest_mjd')
+    ctx.cover(h)
+    hkw = h.node.args.kwarg.arg if h.node.args.kwarg else None
+    for c in [c for c in walk_local(h.node) if isinstance(c, ast.Call) and call_name(c) == 'spec_path']:
+        star = [k.value for k in c.keywords if k.arg is None]
+        whole = any(isinstance(v, ast.Name) and v.id == hkw and FA(h).is_param(v) for v in star)
+        given = {k.arg for k in c.keywords if k.arg}
+        ctx.check('C16.PATH-KW', whole or {'path', 'topdir', 'run2d'} <= given, h, c, 'latest_mjd() hands all location keywords on to spec_path() (%s)' % ('**kwargs' if whole else sorted(given)),
+                  msg='latest_mjd() calls `%s`: not every location keyword (path, topdir, run2d) reaches spec_path(), so the default MJD is looked up in another '
+                      'tree than the one the spectra are read from (readspec returns rows of another plate-MJD, or nothing)' % src(c)[:60],
+                  construct='latest_mjd -> spec_path keywords')
     # LOGLAM-PAD
     loops = [n for n in f.node.body if isinstance(n, ast.For) and any(isinstance(x, ast.Call) and call_name(x) == 'spec_append' for x in ast.walk(n))]
     ctx.need(len(loops) == 1, 'readspec: file loop not found')
